@@ -7,7 +7,8 @@ from __future__ import annotations
 
 from typing import TYPE_CHECKING, Generator, cast
 
-from exabgp.bgp.message import Message, Update
+from exabgp.bgp.message import EOR, Message, Update
+from exabgp.bgp.message.update.collection import UpdateCollection
 from exabgp.environment import getenv
 from exabgp.logger import lazyformat, lazymsg, log
 from exabgp.reactor.peer.handlers.base import MessageHandler
@@ -73,6 +74,11 @@ class UpdateHandler(MessageHandler):
 
         Stores all NLRIs in the incoming RIB cache.
         """
+        # End-of-RIB markers, and the placeholder read_message returns when it skips the
+        # decoding, have the UPDATE type but no parsed routes: there is nothing to store
+        if isinstance(message, (EOR, UpdateCollection)):
+            return
+
         update = cast(Update, message)
         parsed = update.data  # Already parsed by unpack_message
         self._number += 1
@@ -110,6 +116,11 @@ class UpdateHandler(MessageHandler):
 
         Same logic as sync - no async I/O needed for inbound processing.
         """
+        # End-of-RIB markers, and the placeholder read_message returns when it skips the
+        # decoding, have the UPDATE type but no parsed routes: there is nothing to store
+        if isinstance(message, (EOR, UpdateCollection)):
+            return
+
         update = cast(Update, message)
         parsed = update.data  # Already parsed by unpack_message
         self._number += 1
